@@ -351,6 +351,12 @@ func c08Diff(g, w oracle.AssertionT) string {
 }
 
 func c08Replay(raw json.RawMessage) ([]string, string) {
+	if keys, detail, ok := liveReplay(raw, "C08", func(t string) int { return len(c08CasesFor(t == "thorough")) }, func(t string, i int) string {
+		k, _, class := c08Exec(c08CasesFor(t == "thorough")[i])
+		return sig(k, class)
+	}); ok {
+		return keys, detail
+	}
 	var c c08Case
 	if err := json.Unmarshal(raw, &c); err != nil {
 		return nil, err.Error()
@@ -386,6 +392,22 @@ func c08Gen(ch *mc.Chooser) c08Case {
 	return c
 }
 
+var c08Memo = map[bool][]c08Case{}
+
+// c08CasesFor rebuilds the case list of a tier without a Run (for replays of the live pass).
+func c08CasesFor(thorough bool) []c08Case {
+	if c, ok := c08Memo[thorough]; ok {
+		return c
+	}
+	tier := "quick"
+	if thorough {
+		tier = "thorough"
+	}
+	c := c08Cases(mc.NewRun("C08", tier, time.Hour, nil))
+	c08Memo[thorough] = c
+	return c
+}
+
 func c08Cases(r *mc.Run) []c08Case {
 	var cases []c08Case
 	// (a) full product of what the validator must support, on the default document
@@ -418,9 +440,21 @@ func c08Run(r *mc.Run) {
 	r.Assume("goxmldsig canonicalisers used by the harness signer", "etree parser/canonical writer as harness DOM", "sizes stay below goxmldsig's 1000-element traversal cap")
 	cases := c08Cases(r)
 	r.State(len(cases))
+	fresh := make([]string, len(cases))
+	defer func() {
+		stride := 1
+		if r.Thorough() {
+			stride = 16
+		}
+		livePass(r, len(cases), stride, 90*time.Second, func(i int) string {
+			keys, _, class := c08Exec(cases[i])
+			return sig(keys, class)
+		}, fresh)
+	}()
 	r.Par(len(cases), func(i int) {
 		c := cases[i]
 		keys, detail, class := c08Exec(c)
+		fresh[i] = sig(keys, class)
 		r.Eval(2)
 		r.Transition(2)
 		r.Bucket(class)
